@@ -45,6 +45,11 @@ def run(ctx):
             for fp in (fps if not ctx.quick else rng.sample(fps, min(3, len(fps)))):
                 reqs.append({"iface": iface, "split": 0, "shuffle": 0, "repeat": False, "file_parallelism": fp, "passes": 2})
         jobs.append({"dataset": spec, "requests": reqs})
+    # shards far larger than any decoding chunk or prefetch buffer (650 examples in shards of 300): order inside a shard
+    for fmt in (("tfrec", "fb") if ctx.quick else ("tfrec", "fb", "npz")):
+        spec = {"format": fmt, "compression": "", "eps": 300, "sessions": [{"kind": "filler", "sub": [], "reopen": False, "ops": [["W", 0, None, True]] * 650}]}
+        jobs.append({"dataset": spec, "requests": [{"iface": iface, "split": 0, "shuffle": 0, "repeat": False, "file_parallelism": 2, "passes": 1}
+                                                   for iface in iterlib.ifaces_for(spec)]})
     res = iterlib.run_jobs(jobs)
     runs = 0
     for job, r in zip(jobs, res):
